@@ -50,9 +50,17 @@ func (g *c12Gen) body(d int) []*snode {
 }
 
 func (g *c12Gen) node(d int) *snode {
-	k := g.rg.intn(10)
+	k := g.rg.intn(12)
 	if d <= 0 && k >= 3 {
 		k = g.rg.intn(3)
+	}
+	if k == 10 {
+		// nothing to iterate: the empty branch runs, in the loop's own scope
+		return &snode{kind: "forempty", kids: g.body(d - 1)}
+	}
+	if k == 11 {
+		// iterating the caller's data in another order must not reorder the caller's data
+		return &snode{kind: "sortloop"}
 	}
 	name := g.rg.pick(c12Names)
 	switch k {
@@ -107,6 +115,10 @@ func c12Print(ns []*snode) string {
 			sb.WriteString("{% for " + n.name + " in [\"" + n.val + "x\", \"" + n.val + "y\"] %}" + c12Print(n.kids) + "{% endfor %}")
 		case "if":
 			sb.WriteString("{% if true %}" + c12Print(n.kids) + "{% endif %}")
+		case "forempty":
+			sb.WriteString("{% for zq in el %}never{% empty %}" + c12Print(n.kids) + "{% endfor %}")
+		case "sortloop":
+			sb.WriteString("{% for zq in tnums sorted %}{% endfor %}{% for zq in gnums reversed sorted %}{% endfor %}{% for zq in tstrs sorted %}{% endfor %}{% for zq in tstrs reversed %}{% endfor %}")
 		case "macrodef":
 			sb.WriteString("{% macro " + n.name + "(" + n.val + ") %}" + c12Print(n.kids) + "{% endmacro %}")
 		case "call":
@@ -194,6 +206,11 @@ func c12Run(ns []*snode, e *c12Env, refs map[*c12Macro]*c12MacroRef, out *string
 			e.pop()
 		case "if":
 			c12Run(n.kids, e, refs, out)
+		case "forempty":
+			e.push(e.top(), e.mscope[len(e.mscope)-1])
+			c12Run(n.kids, e, refs, out)
+			e.pop()
+		case "sortloop":
 		case "macrodef":
 			m := &c12Macro{param: n.val, body: n.kids}
 			refs[m] = &c12MacroRef{m: m, scope: e.top(), mscope: e.mscope[len(e.mscope)-1]}
@@ -249,7 +266,7 @@ func runC12(r *run) {
 			if len(g.files) > 0 {
 				w.files = []map[string]string{g.files}
 			}
-			ctx := gctx{{"a", gStr("A0")}, {"b", gStr("B0")}}
+			ctx := gctx{{"a", gStr("A0")}, {"b", gStr("B0")}, {"el", gList()}}
 			e := &c12Env{public: map[string]string{"g": "G0", "a": "A0", "b": "B0"}}
 			e.scopes = []c12Scope{{}}
 			e.mscope = []map[string]*c12Macro{{}}
@@ -299,6 +316,12 @@ func deepCopyAny(v any) any {
 			l[i] = deepCopyAny(e)
 		}
 		return l
+	case []int:
+		return append([]int{}, x...)
+	case []string:
+		return append([]string{}, x...)
+	case []float64:
+		return append([]float64{}, x...)
 	}
 	return v
 }
@@ -307,6 +330,10 @@ func execC12(r *run, c caseT) {
 	w, src, ctx := worldFromArgs(c.args)
 	b := w.build()
 	goCtx := ctx.goContext()
+	// typed slices the model does not know (it sees nothing to iterate: same output)
+	goCtx["tnums"] = []int{3, 1, 2}
+	goCtx["tstrs"] = []string{"b", "c", "a"}
+	b.set.Globals["gnums"] = []int{9, 7, 8}
 	ctxBefore := deepCopyAny(map[string]any(goCtx))
 	globBefore := deepCopyAny(map[string]any(b.set.Globals))
 	obs := ""
